@@ -94,6 +94,13 @@ def _pad(pf):
     return ("malformed", repr(pf)[:120])
 
 
+def has_padding_parameter():
+    """the hybrid hashers take `padding` (the creators switch it off for a single file); the model has it"""
+    import inspect
+    from torrentfile import hasher as hm
+    return all("padding" in inspect.signature(c.__init__).parameters for c in (hm.HasherHybrid, hm.FileHasher))
+
+
 def real_all(path, pl):
     """every v2-capable hasher on one file; FileHasher is iterated to exhaustion the way TorrentAssembler does"""
     from torrentfile import hasher as hm
@@ -101,12 +108,19 @@ def real_all(path, pl):
     h = hm.HasherV2(path, pl, progress=0, progress_bar=NoProg())
     res["v2"] = {"root": _b(h.root), "layer": _b(h.piece_layer)}
     for pad in (0, 1):
-        h = hm.HasherHybrid(path, pl, progress=0, progress_bar=NoProg(), padding=bool(pad))
+        if not pad and not has_padding_parameter():
+            res["hy0"] = res["fh00"] = res["fh10"] = None      # reported once by unit()
+            continue
+        kw = {"padding": bool(pad)} if has_padding_parameter() else {}
+        h = hm.HasherHybrid(path, pl, progress=0, progress_bar=NoProg(), **kw)
         res[f"hy{pad}"] = {"root": _b(h.root), "layer": _b(h.piece_layer), "pieces": [bytes(p) for p in h.pieces],
                            "pad": _pad(h.padding_file)}
     for hyb in (0, 1):
         for pad in (0, 1):
-            h = hm.FileHasher(path, pl, progress=0, hybrid=bool(hyb), progress_bar=NoProg(), padding=bool(pad))
+            if not pad and not has_padding_parameter():
+                continue
+            kw = {"padding": bool(pad)} if has_padding_parameter() else {}
+            h = hm.FileHasher(path, pl, progress=0, hybrid=bool(hyb), progress_bar=NoProg(), **kw)
             yl, yp = [], []
             for result in h:
                 if hyb:
@@ -290,6 +304,8 @@ def oracle_problems(prop, res, data, pl):
         if size > pl and oracle.root_from_layer(oracle.piece_layer(data, pl), pl) != root:
             raise AssertionError("reference: root recomputed from the piece layer differs from the root")
         for h in HASHERS:
+            if res[h] is None:
+                continue
             if res[h]["root"] != root:
                 out.append(("hasher-root-vs-bep52", h, root, res[h]["root"]))
             if size > pl:
@@ -305,6 +321,8 @@ def oracle_problems(prop, res, data, pl):
         plain = oracle.v1_pieces(data, pl)
         for h, want, wpad in (("hy1", padded, gap or None), ("fh11", padded, gap or None),
                               ("hy0", plain, None), ("fh10", plain, None)):
+            if res[h] is None:
+                continue
             if res[h]["pieces"] != want:
                 out.append(("hasher-v1-pieces", h, want, res[h]["pieces"]))
             if res[h]["pad"] != wpad:
@@ -314,6 +332,8 @@ def oracle_problems(prop, res, data, pl):
     if prop == "C10":
         ref = res["v2"]
         for h in HASHERS[1:]:
+            if res[h] is None:
+                continue
             if res[h]["root"] != ref["root"]:
                 out.append(("hashers-disagree-root", h, ref["root"], res[h]["root"]))
             if res[h]["layer"] != ref["layer"]:
@@ -322,6 +342,8 @@ def oracle_problems(prop, res, data, pl):
                 out.append(("hashers-disagree-layer", h + " (yielded)", ref["layer"], b"".join(res[h]["yielded_layers"])))
         for pad in "01":
             a, b_ = res["hy" + pad], res["fh1" + pad]
+            if a is None:
+                continue
             if a["pieces"] != b_["pieces"] or b_["yielded_pieces"] != a["pieces"]:
                 out.append(("hashers-disagree-v1-pieces", f"hy{pad} vs fh1{pad}", a["pieces"], b_["pieces"]))
             if a["pad"] != b_["pad"]:
@@ -350,6 +372,12 @@ def unit(ctx, prop, model_ok):
     salt = ctx.rng.getrandbits(48)
     cases = unit_cases(ctx)
     lines, spec_lines, impl, meta = [], [], [], []
+    if not has_padding_parameter() and prop == "C03":
+        # C02 / C10 do not depend on the flag: root and layer are the same for both values (hasher_hybrid_agrees_v2)
+        # and the two hybrid hashers are compared with the same setting; the single-file statements of C03 do
+        ctx.disagree("Model/HasherV2.v vs hasher.py: HasherHybrid / FileHasher have no `padding` parameter",
+                     {"kind": "interface"}, "hasher_hybrid padding pl data, file_hasher hybrid padding pl data",
+                     "no such parameter: the padding=False rows of the model are not tied to the code")
     with core.Scratch("v" + prop.lower() + "u_") as tmp:
         path = os.path.join(tmp, "file.bin")
         for b in sorted({c[0] for c in cases}):
@@ -393,6 +421,8 @@ def unit(ctx, prop, model_ok):
         model = parse_v2all(o)
         ctx.traces_validated += 1
         for h in HASHERS:
+            if res[h] is None:
+                continue
             for f in fields:
                 if f in model[h] and model[h][f] != res[h].get(f):
                     ctx.disagree(f"Model/HasherV2.v vs hasher.py: {HASHER_NAMES[h]}.{f}", inp,
@@ -465,23 +495,31 @@ def gen_case(salt, i):
     """content tree number i of a run: (pl, tree, empty_dirs, options, classes)"""
     rng = random.Random(f"{salt}:e2e:{i}")
     pl = rng.choice([16384, 16384, 32768, 65536])
-    tree, cl = trees.gen_tree(rng, pl)
+    tree, cl = trees.gen_tree(rng, pl, single_prob=1.0 if i % 6 == 0 else 0.08)
     empty_dirs = []
     single = list(tree) == [()]
     if not single:
         m = i % 6
+        sub = ("mdir",) if rng.random() < 0.6 else ()
         if m == 1:      # several multi-piece files (their roots are random: half of the time against tree order)
-            for name in (("m1.bin",), ("mdir", "m2.bin"), ("mdir", "m3.bin"))[:rng.choice([2, 3])]:
+            for name in (("m1.bin",), sub + ("m2.bin",), sub + ("m3.bin",))[:rng.choice([2, 3])]:
                 tree[name] = rng.randbytes(rng.choice([pl + 1, 2 * pl, 3 * pl - 1, 2 * pl + B_REAL + 7, 5 * pl, 4 * pl + 1]))
         elif m == 2:    # identical multi-piece files share one root and one piece-layers entry
             data = rng.randbytes(rng.choice([pl + 1, 3 * pl, 2 * pl + 5]))
             tree[("dup1.bin",)] = data
-            tree[("mdir", "dup2.bin")] = data
+            tree[sub + ("dup2.bin",)] = data
         elif m == 3:    # empty directories (not files: recorded as empty dictionaries by the traversal, not judged)
             empty_dirs = [("empty dir",)] + ([("mdir", "e")] if rng.random() < 0.5 else [])
         elif m == 4:    # the membership boundary of the piece layers: sizes pl (no entry) and pl+1 (entry)
             tree[("eq.bin",)] = rng.randbytes(pl)
-            tree[("mdir", "gt.bin")] = rng.randbytes(pl + 1)
+            tree[sub + ("gt.bin",)] = rng.randbytes(pl + 1)
+        elif m == 5:    # a flat directory
+            flat = {}
+            for k, v in tree.items():
+                flat.setdefault((k[-1],), v)
+            tree = flat
+            cl.discard("full-path order != per-directory order")
+    cl -= {"flat", "nested", "identical files"}      # recomputed from the final tree by classify_tree
     opts = dict(rng.choice(OPTIONS))
     return pl, tree, empty_dirs, opts, set(cl)
 
@@ -496,12 +534,11 @@ _ROOTS = {}
 
 
 def _root_of(data):
-    k = (len(data), hash(data))
-    if k not in _ROOTS:
-        if len(_ROOTS) > 4000:
+    if data not in _ROOTS:
+        if len(_ROOTS) > 200:
             _ROOTS.clear()
-        _ROOTS[k] = oracle.pieces_root(data)
-    return _ROOTS[k]
+        _ROOTS[data] = oracle.pieces_root(data)
+    return _ROOTS[data]
 
 
 def classify_tree(tree, pl, empty_dirs, order, base):
@@ -525,6 +562,7 @@ def classify_tree(tree, pl, empty_dirs, order, base):
                 cl.add(">= 2 multi-piece files whose roots sort against tree order")
         if empty_dirs:
             cl.add("empty directory present")
+        cl.add("nested" if any(len(k) > 1 for k in tree) or any(len(d) > 1 for d in empty_dirs) else "flat")
         if order and len(tree[order[-1]]) % pl == 0:
             cl.add("last file needs no padding")
         if order and len(tree[order[-1]]) == 0:
@@ -838,3 +876,64 @@ def replay_case(ctx, data, prop):
 
 C10_PAIRS = [("v2-asm", "v2-class"), ("hybrid-asm", "hybrid-class"),
              ("cli --meta-version 2", "v2-class"), ("cli --meta-version 3", "hybrid-class")]
+
+
+# ------------------------------------------------------------------------------ end-to-end driver
+E2E_KINDS = {"C02": ("v2-class", "v2-asm", "hybrid-class", "hybrid-asm"),
+             "C03": ("hybrid-class", "hybrid-asm"),
+             "C10": ("v2-class", "v2-asm", "hybrid-class", "hybrid-asm")}
+E2E_CLI = {"C02": (2, 3), "C03": (3,), "C10": (2, 3)}
+CATEGORIES = {
+    "C02": [("pieces root of", "v2-pieces-root"), ("empty file", "v2-empty-file-carries-root"),
+            ("piece layers", "v2-piece-layers"), ("no top-level piece layers", "v2-piece-layers"),
+            ("file tree", "v2-file-tree")],
+    "C03": [("single-file hybrid", "hybrid-single-file"), ("non-padding entries", "hybrid-files-vs-file-tree"),
+            ("file ", "hybrid-file-placement"), ("padding entry", "hybrid-padding-entry"), ("pieces (", "hybrid-pieces")],
+}
+
+
+def _categorise(prop, problems):
+    groups = {}
+    for p in problems:
+        kind = next((k for prefix, k in CATEGORIES[prop] if p.startswith(prefix)), prop.lower() + "-metafile")
+        groups.setdefault(kind, []).append(p)
+    return groups
+
+
+def e2e(ctx, prop):
+    """the creators of this property on generated content trees, judged against the reference oracle / each other"""
+    import shutil
+    n = 24 if ctx.tier == "quick" else 400
+    salt = ctx.rng.getrandbits(48)
+    core.use_repo_in_process()
+    with core.Scratch("v" + prop.lower() + "e_") as tmp:
+        os.environ["HOME"] = tmp
+        for i in range(n):
+            cli = E2E_CLI[prop] if i % 3 == 2 else ()
+            case = build_case(tmp, salt, i, E2E_KINDS[prop], cli)
+            for c in sorted(case["classes"]):          # classes are counted once per content tree
+                ctx.classes[c] = ctx.classes.get(c, 0) + 1
+            for kind, meta in case["metas"].items():
+                inp = case_input(case, kind)
+                ctx.case(key=("e2e", i, kind, case["pl"], tuple(sorted(inp["tree"].items()))), classes=["creator: " + kind],
+                         nontrivial=bool(case["classes"]), sample=inp if i == 1 else None)
+                if isinstance(meta, BaseException):
+                    ctx.fail("create-raised", inp, "a metafile", f"{type(meta).__name__}: {meta}")
+                    continue
+                if prop == "C02":
+                    problems = check_c02(meta, case)
+                elif prop == "C03":
+                    problems = check_c03(meta, case)
+                else:
+                    problems = []
+                for kind_, ps in _categorise(prop, problems).items() if problems else ():
+                    ctx.fail(kind_, inp, prop + " (reference hashing of the tree as it is on disk)", ps[:6])
+            if prop == "C10":
+                for x, y in C10_PAIRS:
+                    a, b = case["metas"].get(x), case["metas"].get(y)
+                    if isinstance(a, dict) and isinstance(b, dict):
+                        ps = check_c10_pair(a, b)
+                        if ps:
+                            ctx.fail("creators-differ-" + ("hybrid" if "hybrid" in y else "v2") + ("-cli" if "cli" in x else ""),
+                                     case_input(case, f"{x} vs {y}"), "identical info dictionaries and piece layers", ps)
+            shutil.rmtree(os.path.join(tmp, f"c{i}"), ignore_errors=True)
